@@ -1,5 +1,5 @@
 import PkgProofs.Lemmas.ScanTrim
-import PkgProofs.Lemmas.SpellNormal
+import PkgProofs.Lemmas.SpellSound
 import PkgProofs.Props.C01
 /-!
 # C02 — Version components and normal forms are faithful and canonical
@@ -226,6 +226,21 @@ alternate words in any letter case, every optional separator, implicit numbers, 
 local-label separators and case -/
 theorem scan_render (sp : Spelling.Spelling) (h : Spelling.Valid sp = true) :
     scan (Spelling.render sp) = some (Spelling.meaning sp) := Spelling.scan_render sp h
+
+/-- **nothing else is accepted, and nothing is read differently**: every accepted string is the rendering of a
+valid spelling, and the components are that spelling's meaning -/
+theorem scan_sound (s : Str) (v : Ver) (h : scan s = some v) :
+    ∃ sp : Spelling.Spelling, Spelling.Valid sp = true ∧ Spelling.render sp = s ∧ Spelling.meaning sp = v :=
+  Spelling.scan_sound s v h
+
+/-- the two together: `Version(s)` succeeds exactly on renderings of valid spellings, and its components are the
+meaning of *every* valid spelling of `s` (so the meaning of a string does not depend on how it is parsed) -/
+theorem components_are_pep440_reading (s : Str) :
+    (∀ v, scan s = some v ↔ ∃ sp, Spelling.Valid sp = true ∧ Spelling.render sp = s ∧ Spelling.meaning sp = v) := by
+  intro v
+  constructor
+  · exact scan_sound s v
+  · rintro ⟨sp, hv, rfl, rfl⟩; exact scan_render sp hv
 
 /-- **`str` is the PEP 440 normal form**: `str(Version(s))` is the rendering of the normalised spelling, which
 is itself a valid spelling with the same meaning -/
